@@ -132,8 +132,14 @@ class ReaperAnchors:
             t, v = n.targets[0], n.value
             if isinstance(t, ast.Name) and ast.unparse(v) == W + '.exitcode':
                 self.exitcode = t.id
-            if isinstance(t, ast.Name) and isinstance(v, ast.ListComp) and \
-                    ast.unparse(v.generators[0].iter) == 'self._pool' and ast.unparse(v.elt).endswith('.pid'):
+            # the pids of the workers still listed: a list, a set or a frozenset of them, however it is spelled
+            comp = v
+            if isinstance(comp, ast.Call) and isinstance(comp.func, ast.Name) and comp.func.id in ('set', 'frozenset', 'list', 'tuple') \
+                    and len(comp.args) == 1:
+                comp = comp.args[0]
+            if isinstance(t, ast.Name) and isinstance(comp, (ast.ListComp, ast.SetComp, ast.GeneratorExp)) and \
+                    ast.unparse(comp.generators[0].iter) == 'self._pool' and ast.unparse(comp.elt).endswith('.pid') and \
+                    not comp.generators[0].ifs:
                 self.all_pids = t.id
             if isinstance(t, ast.Name) and any(isinstance(x, ast.Call) and fi.callee(x) in CLOCKS for x in ast.walk(v)):
                 self.now = t.id
